@@ -1,6 +1,6 @@
 (* C04 driver.
    (journal ID TEXTHEX ...)   amounts of the postings in file order (as written in the journal)
-   -> for every amount i: "ID i <hex printed text>|<rational>|<hex text of a/7>|<rational of a/7>|<hex text of a*0.333>|<rational>"
+   -> for every amount i: "ID i <hex printed text>|<rational>|<hex text of a/7>|<rational of a/7>|<hex text of a*0.333>|<rational>|<hex report-column text>"
       or "ID i E" when the reader rejects the text. *)
 let pow10 p = let rec go acc k = if k = 0 then acc else go (h_mul acc z10) (k - 1) in go (z_of_int 1) (int_of_z p)
 
@@ -46,7 +46,8 @@ let handle line =
           let third = { aq = h_qmake (z_of_int 333) (z_of_int 1000); aprec = z_of_int 3; akeep = false; acomm = None } in
           let d7 = (match amt_div cp a seven with Ok x -> x | Err _ -> a) in
           let m3 = amt_mul cp a third in
-          Printf.sprintf "%s %d %s|%s|%s|%s|%s|%s" id i (txt a) (show_rat a) (txt d7) (show_rat d7) (txt m3) (show_rat m3))
+          Printf.sprintf "%s %d %s|%s|%s|%s|%s|%s|%s" id i (txt a) (show_rat a) (txt d7) (show_rat d7) (txt m3) (show_rat m3)
+            (hex_of_str (value_column_text cp st a)))
       parsed
   | _ -> failwith "case"
 
